@@ -14,7 +14,7 @@ MODELLED = {
                 'Node.mapn': 'mapn', 'Node.mapan': 'mapan', 'Node.set': 'set', 'Node.setn': 'setn',
                 'Node.fill': 'fill', 'Node.release': 'release', 'Node.trace': 'trace',
                 'Node.query': 'nquery', 'Node.move_before': 'movb', 'Node.move_after': 'mova',
-                'AbstractGroup.__init__': 'group/pgroup', 'AbstractGroup._move_node_to_head': 'movh',
+                'AbstractGroup.__init__': 'group/pgroup (+ groupc/pgroupc: after/before/head/tail/replace)', 'AbstractGroup._move_node_to_head': 'movh',
                 'AbstractGroup._move_node_to_tail': 'movt', 'AbstractGroup.free_all': 'gfreeall',
                 'AbstractGroup.deep_free': 'gdeep', 'AbstractGroup.dump_tree': 'gdump',
                 'Synth.__init__': 'synth', 'Synth.new_paused': 'synthp', 'Synth.grain': 'grain',
@@ -357,6 +357,22 @@ def gen_actions(repo):
     return '\n'.join(out)
 
 
+CONV = {'after': 'saddAfter', 'before': 'saddBefore', 'head': 'saddToHead', 'tail': 'saddToTail',
+        'replace': 'saddReplace'}
+
+
+def plain_form(line):
+    """the convenience constructors written as the plain constructor they stand for"""
+    w = line.split()
+    if w[0] in ('groupc', 'pgroupc'):
+        return f'{w[0][:-1]} {w[2]} {CONV[w[1]]}'
+    if w[0] == 'synthc':
+        if w[1] == 'replace':
+            return f'replace {w[3]} {w[2]} ' + ' '.join(w[4:]) + ' F'
+        return f'synth {w[2]} {w[3]} {CONV[w[1]]} ' + ' '.join(w[4:])
+    return line
+
+
 class Check(common.Check):
     PROP = 'C17'
     LEAN_TARGETS = ['Sc3Verif.C17.Props']
@@ -483,6 +499,19 @@ class Check(common.Check):
             if r < w[0]:                                   # ---- nodes
                 k = rng.random()
                 if k < 0.3 or not st['node']:
+                    if rng.random() < 0.2 and st['node']:
+                        # convenience constructors of each receiver class
+                        cop = rng.choice(['groupc', 'pgroupc', 'pgroupc', 'synthc'])
+                        ck = rng.choice(list(CONV))
+                        tgt = f'n{rng.randrange(st["node"])}'
+                        if cop == 'synthc':
+                            ops.append(f'synthc {ck} {rng.choice(["default", "x"])} {tgt} {self.gen_args(rng, st)}')
+                            st['synths'].append(st['node'])
+                        else:
+                            ops.append(f'{cop} {ck} {tgt}')
+                            st['groups'].append(st['node'])
+                        st['node'] += 1
+                        continue
                     kind = rng.choice(['synth', 'synth', 'synth', 'group', 'pgroup', 'synthp', 'grain'])
                     tgt, act = self.gen_target(rng, st), rng.choice(ACTIONS)
                     if kind in ('group', 'pgroup'):
@@ -717,8 +746,28 @@ class Check(common.Check):
         return {'opts': {'client_id': 0, 'max_logins': 4, 'latency': rng.choice(['1/4', None]), 'buffers': 64},
                 'ops': ops, 'big': True}
 
+    def gen_badexit(self, rng):
+        """a bind block whose send at exit raises (a message the encoder refuses), then further commands:
+        however the block ended, later commands reach the wire again"""
+        ops = ['group N shead', 'synth default n0 shead N']
+        for _ in range(rng.randint(1, 3)):
+            ops.append('bind')
+            if rng.random() < 0.3:
+                ops.append('bind')
+                ops += [f'run n1 {rng.choice("TF")}', 'end']
+            body = [f'set n1 sfreq i{rng.randint(0, 99)}' for _ in range(rng.randint(0, 3))]
+            body.insert(rng.randint(0, len(body)), 'badmsg')
+            ops += body + ['end']
+            ops += [rng.choice([f'run n1 {rng.choice("TF")}', 'trace n0', 'group n0 stail', 'cbus i2'])
+                    for _ in range(rng.randint(1, 4))]
+            if rng.random() < 0.5:
+                ops += ['bind', f'set n1 samp i{rng.randint(0, 9)}', 'end']
+        return {'opts': {'client_id': 0, 'max_logins': 4, 'latency': rng.choice(['1/4', None]), 'buffers': 64},
+                'ops': ops}
+
     def gen(self, rng, n):
         cases = [self.gen_case(rng) for _ in range(n)]
+        cases += [self.gen_badexit(rng) for _ in range(max(3, n // 60))]
         for _ in range(max(2, n // 150)):
             cases.append(self.gen_big(rng))
         return cases
@@ -745,7 +794,7 @@ class Check(common.Check):
             lines.append('reset')
             lines.append(f"server {o.get('client_id', 0)} {o.get('max_logins', 1)} {o.get('buffers', 1024)} "
                          f"{'N' if lat is None else lat}")
-            lines.extend(c['ops'])
+            lines.extend(plain_form(l) for l in c['ops'])
             lines.append('eof')
         out, err = common.run_driver('Sc3Verif/C17/Driver.lean', lines)
         if out is None:
@@ -761,8 +810,8 @@ class Check(common.Check):
         return res
 
     def compare(self, case, impl_out, model_out):
-        if case.get('big'):
-            return None          # blocks above the datagram size are clumped (C06 model): oracle only
+        if case.get('big') or 'badmsg' in case['ops']:
+            return None          # clumped blocks (C06 model) / messages the encoder refuses: oracle only
         if common.canon(impl_out['wire']) == common.canon(model_out):
             return None
         for i, (a, b) in enumerate(zip(impl_out['wire'], model_out)):
@@ -853,6 +902,10 @@ class Check(common.Check):
             if i >= len(W):
                 return {'what': f'no output for op #{i}', 'signature': 'c17:output'}
             st, pk = W[i]
+            if '!class:' in st:
+                return {'what': f'op #{i} `{line}` returned a {st.split("!class:")[1]} object, not an instance of the '
+                                f'class it was called on', 'signature': 'create:class', 'index': i}
+            line = plain_form(line)
             tst, tpk = T[i] if i < len(T) else ('', [])
             op = line.split()[0]
             # -- everything that reaches the wire, and everything the twin emits, must be encodable and conform
@@ -861,6 +914,8 @@ class Check(common.Check):
                     if kind == 'X':
                         return {'what': f'op #{i} `{line}`{where}: `{msgs[0][:120]}` was sent to port {info}, not to the '
                                         f'server the object belongs to', 'signature': 'server:wrong-socket', 'index': i}
+                    if kind == 'E' and op == 'badmsg':
+                        continue             # deliberately unencodable (caller's fault)
                     if kind == 'E':
                         cmd = msgs[0].split()[0] if msgs else '?'
                         return {'what': f'op #{i} `{line}`{where}: the OSC encoder rejects the emitted message '
